@@ -559,6 +559,93 @@ def rule_prop_domain(chk, db, cfgname, rid):
     chk.count(rid.lower() + '.property_table_resets', n)
 
 
+def rule_seam_both_ends(chk, db, cfgname, rid):
+    chk.rule(rid, 'an edge is a property seam when the property vertices of its two halfedges differ at EITHER end: a '
+             'function that compares (== / !=) the paired halfedge\'s property index at one end of the edge - '
+             'Prop(pair) or PropEnd(pair) / Prop(NextHalfedge(pair)), pair = Pair(e) - also compares it at the '
+             'other end (sibling agreement of the seam tests in CollapseEdge, HasSimpleProps and Subdivide)')
+    n = 0
+    for f in db.functions.values():
+        if not f.get('blocks') or not f['file'].startswith('src/'):
+            continue
+        # locals are identified by their declaration position, and only those that are never re-assigned count
+        # (an orbit cursor `current = Pair(current)` walks a vertex fan: comparing its property index with a
+        # fixed one is a per-vertex test, not an edge-level seam test)
+        inits = {}
+        assigned = set()
+        for b in f['blocks']:
+            for e in b['ev']:
+                if e.get('k') == 'decl':
+                    for v in e['vars']:
+                        if isinstance(v.get('init'), dict) and v.get('d'):
+                            inits[v['d']] = v['init']
+                for y in T.walk(e):
+                    if isinstance(y, dict) and ((y.get('k') == 'bin' and y.get('op', '').endswith('=') and
+                                                 y.get('op') not in ('==', '!=', '<=', '>=')) or
+                                                (y.get('k') == 'un' and y.get('op') in ('++', '--'))):
+                        t = T.strip(y.get('l') or y.get('e') or {})
+                        if t.get('k') == 'var' and t.get('d'):
+                            assigned.add(t['d'])
+        pairs = set()
+        for name, init in inits.items():
+            if name in assigned:
+                continue
+            i0 = T.strip_copy(init)
+            if i0.get('k') == 'call' and T.short(i0.get('fn', '')) == 'Pair' and \
+                    'Halfedges' in (i0.get('mcls') or i0.get('fn', '')):
+                pairs.add(name)
+        if not pairs:
+            continue
+
+        def is_pair(a):
+            a = T.strip_copy(a)
+            return a.get('k') == 'var' and a.get('d') in pairs
+
+        def side(x, depth=0):
+            """'start' / 'end': the paired halfedge's property index at its start / end vertex"""
+            x = T.strip_copy(x)
+            if x.get('k') == 'var' and x.get('d') in inits and x['d'] not in assigned and depth < 2:
+                return side(inits[x['d']], depth + 1)
+            if x.get('k') != 'call' or not x.get('args'):
+                return None
+            m = T.short(x.get('fn', ''))
+            a = T.strip_copy(x['args'][0])
+            if m == 'Prop' and is_pair(a):
+                return 'start'
+            if m == 'PropEnd' and is_pair(a):
+                return 'end'
+            if m == 'Prop' and a.get('k') == 'call' and T.short(a.get('fn', '')) == 'NextHalfedge' and \
+                    a.get('args') and is_pair(a['args'][0]):
+                return 'end'
+            return None
+        seen = {}
+        roots = [e for b in f['blocks'] for e in b['ev']] + \
+                [b['term']['cond'] for b in f['blocks'] if b.get('term') and isinstance(b['term'].get('cond'), dict)]
+        for r in roots:
+            for y in T.walk(r):
+                if isinstance(y, dict) and y.get('k') == 'bin' and y.get('op') in ('==', '!='):
+                    for o in (y['l'], y['r']):
+                        sd = side(o)
+                        if sd:
+                            seen.setdefault(sd, (y.get('ln'), T.pstr(y)[:80]))
+        if not seen:
+            continue
+        n += 1
+        ok = len(seen) == 2 or any(f['name'].startswith(r['function']) for r in
+                                   load_table().get('one_ended_seam_tests_reviewed', []))
+        chk.obligation(ok, {'function': f['name'][:70], 'pair locals declared at': sorted(pairs),
+                            'ends compared': {k: v[1] for k, v in seen.items()}})
+        if not ok:
+            have = list(seen)[0]
+            ln, tx = seen[have]
+            chk.violation(rid, f, 'seam test looks at one end only (%s)' % tx,
+                          'the paired halfedge\'s property vertex is compared only at its %s (%s, line %s): an edge '
+                          'whose two sides share the property vertex at that end but not at the other one is taken '
+                          'for seamless, so vertices created on it get the properties of the wrong side'
+                          % (have, tx, ln), line=ln, cfg=cfgname)
+    chk.count(rid.lower() + '.seam_tests', n)
+
+
 def main(chk, tier):
     import db as D
     import c06
@@ -576,9 +663,11 @@ def main(chk, tier):
         rule_backside(chk, db, cfgname, 'C07.4')
         rule_offsets(chk, db, cfgname, 'C07.5')
         rule_prop_domain(chk, db, cfgname, 'C07.6')
+        rule_seam_both_ends(chk, db, cfgname, 'C07.7')
     n = len(configs)
     chk.floor('c07.1.attribute_flows', 4 * n)
     chk.floor('c07.1b.group_members', 12 * n)
+    chk.floor('c07.7.seam_tests', 2 * n)
     return chk.finish(
         'Index-provenance analysis of the MeshGL exporter (every per-triangle/per-halfedge attribute that reaches an '
         'output array is read through the one sorted triangle map), permutation-group completeness at the sort/'
